@@ -10,7 +10,9 @@
 (***************************************************************************)
 EXTENDS Integers, Sequences, TLC, Json
 
-Forms == {"PipeN", "PipeOpN", "Pipe", "PipeOp"}
+\* "Pipe" / "PipeOp": the reflective forms over a chain whose element type changes on the way (int -> string -> int ...);
+\* "PipeHomogeneous": the reflective form over operators of one type
+Forms == {"PipeN", "PipeOpN", "Pipe", "PipeOp", "PipeHomogeneous"}
 MaxN == 25
 Inputs == <<1, 2, 0>>
 
